@@ -2,11 +2,7 @@ package props
 
 import (
 	"fmt"
-	"os"
-	"os/exec"
 	"reflect"
-	"strconv"
-	"strings"
 
 	"github.com/free5gc/ike/message"
 	"github.com/free5gc/ike/security"
@@ -506,40 +502,16 @@ func firstCalls() []firstCall {
 	return l
 }
 
-// FirstCall runs entry i as the first library call of this process.
-func FirstCall(i int) string {
-	l := firstCalls()
-	if i < 0 || i >= len(l) {
-		return "FIRSTCALL none"
+func init() {
+	for _, fc := range firstCalls() {
+		fc := fc
+		registerFresh("C11", freshCase{fc.name, func(rep int) string { return fc.f() }})
 	}
-	bad := ""
-	if p := core.Try(func() { bad = l[i].f() }); p != nil {
-		bad = "panic: " + p.Value
-	}
-	if bad != "" {
-		return "FIRSTCALL bad " + l[i].name + ": " + bad
-	}
-	return "FIRSTCALL ok " + l[i].name
 }
 
 func c11FirstCalls(c *core.Ctx) {
-	n := len(firstCalls())
-	c.Family("first-call-in-a-fresh-process", n, func(k *core.Case) {
-		k.Eval(1)
-		cmd := exec.Command(os.Args[0], "firstcall", strconv.Itoa(k.Index))
-		out, err := cmd.CombinedOutput()
-		line := strings.TrimSpace(string(out))
-		switch {
-		case err == nil && strings.HasPrefix(line, "FIRSTCALL ok"):
-			k.Count("first_calls_ok", 1)
-			k.Distinct("firstcall|" + strings.TrimPrefix(line, "FIRSTCALL ok "))
-		case strings.HasPrefix(line, "FIRSTCALL bad"):
-			k.Violate("mapping", "first-call-in-a-fresh-process-differs: "+classifyErr(fmt.Errorf("%s", strings.SplitN(strings.TrimPrefix(line, "FIRSTCALL bad "), "(", 2)[0])), line, M{"entry": k.Index})
-		default:
-			k.Inconclusive("first-call child %d: %v %s", k.Index, err, clipS(line, 300))
-		}
-	})
-	c.Require("first_calls_ok")
+	freshFamily(c, "C11", "first-call-in-a-fresh-process", 1)
+	c.Require("fresh_process_cases_ok")
 }
 
 func c11Proposals(c *core.Ctx) {
@@ -647,6 +619,7 @@ func c11Proposals(c *core.Ctx) {
 		k.Eval(1)
 		pn := core.Try(func() {
 			src := newChild(e, i)
+			src.DhInfo = nil // (newChild varies the fields a derivation must not depend on; here the proposal content is the subject)
 			if d > 0 {
 				src.DhInfo = dh.StrToType(libsa.DhNames[d-1])
 			}
